@@ -492,9 +492,11 @@ def collect(it, name, deferred, **kw):
     Listed exception (open finding): an entry that two filter elements reach
     by different routes (its old and its new path, a renamed or replaced
     parent directory) is reported twice, identically, by every bzr
-    implementation. Not excused: an entry that keeps its path and lies below
-    a filter element that is itself below another filter element (the
-    redundant element must be pruned), and anything unfiltered.
+    implementation. Not excused: anything unfiltered, and a double report
+    that exists only because the filter names a path below another of its
+    elements (the redundant element must be pruned): decided by running the
+    comparison again without the redundant elements - still doubled means
+    two routes, gone means the redundancy caused it.
     git ids are paths: a kind change in place is a removal plus an addition
     of the same id."""
     recs = [canon(c) for c in it.iter_changes(**kw)]
@@ -512,6 +514,15 @@ def collect(it, name, deferred, **kw):
             moved = r[3] == (True, True) and r[1][0] != r[1][1]
             nested = any(selected(r[1][0], [f]) or selected(r[1][1], [f])
                          for f in inner)
+            if sf is not None and nested and not moved:
+                outer = [f for f in sf if f not in inner]
+                again = [canon(c) for c in it.iter_changes(
+                    **dict(kw, specific_files=outer))]
+                nested = sum(1 for q in again if (
+                    q[0] if q[0] is not None else
+                    ("unversioned", q[1][1])) == key) < 2
+                det["without_redundant_filter_elements"] = \
+                    "reported once" if nested else "still reported twice"
             check(sf is not None and r == seen[key] and
                   (moved or not nested),
                   "C10/entry-reported-twice-" + impl, det)
